@@ -211,24 +211,54 @@ Definition prop_resolve (args : list bytes) : bytes :=
   let want := run_resolve_with true true a in
   if bytes_eqb want obs then bs "ok" else bs "FAIL want=" ++ firstn 300 want.
 
-(* ---- round trips with failing first attempts ----
-   [name; wksrv; k; nrt; dead ports (comma separated); wkmode; status; cl; cc; ex; bm; body; now; srv table...]
-   nrt round trips for the same server name through one transport (one resolution cache); the
-   listeners fail the first k TLS handshakes they see; ports in the dead list refuse.
-   Output per round trip: the lookups made, one line per attempt the listeners saw
-   (A port sni [host]) and RT ok / RT err.  The SNI extension is not sent for IP literals. *)
+(* ---- round trips with failing first attempts, under allow / deny lists ----
+   [name; wksrv; k; nrt; dead ports (comma separated); nallow; allow...; ndeny; deny...;
+    nhosts; (host; address)...; wkmode; status; cl; cc; ex; bm; body; now; srv table...]
+   nrt round trips for the same server name through one transport (one resolution cache, a DNS
+   cache whose resolver maps the listed hosts to the listed addresses, every other name to
+   127.0.0.1); the federation listeners fail the first k TLS handshakes they see; ports in the
+   dead list refuse; the lists are given to the client and to its DNS cache.
+   Output, in order of occurrence: C address = a TCP connection was accepted at that address
+   (the .well-known request at port 443 included), P W / P S = the lookups, A = what a federation
+   listener saw of an attempt (port, SNI, Host once the handshake got through), RT ok / RT err.
+   The SNI extension is not sent for IP literals. *)
 Definition wire_sni (s : bytes) : bytes := match parse_ip s with Some _ => [] | None => s end.
 
-Definition show_attempt (a : target * attempt_outcome) : list bytes :=
+Fixpoint take_counted (n : nat) (l : list bytes) : list bytes * list bytes :=
+  match n, l with
+  | S n', x :: r => let '(a, b) := take_counted n' r in (x :: a, b)
+  | _, _ => ([], l)
+  end.
+
+Definition counted (l : list bytes) : list bytes * list bytes :=
+  match l with
+  | n :: r => take_counted (N.to_nat (n_of n)) r
+  | [] => ([], [])
+  end.
+
+Fixpoint pairs_of (l : list bytes) : list (bytes * bytes) :=
+  match l with a :: b :: r => (a, b) :: pairs_of r | _ => [] end.
+
+Definition ip_lookup (hosts : list (bytes * bytes)) (h : bytes) : bytes :=
+  match find (fun p => bytes_eqb (fst p) h) hosts with
+  | Some p => snd p
+  | None => bs "127.0.0.1"
+  end.
+
+Definition show_attempt (ip_of : bytes -> bytes) (a : target * attempt_outcome) : list bytes :=
   let '(t, o) := a in
+  let conn := bs "C " ++ dest_addr ip_of (t_dest t) in
   let base := bs "A port=" ++ port_of (t_dest t) ++ bs " sni=" ++ wire_sni (t_sni t) in
   match o with
   | ARefused => []
-  | ATlsFail => [base]
-  | AOk => [base ++ bs " host=" ++ t_host t]
+  | ATlsFail => [conn; base]
+  | AOk => [conn; base ++ bs " host=" ++ t_host t]
   end.
 
-Fixpoint run_rts (n : nat) (wks : bool) (dead : list bytes) (name : bytes)
+Definition is_ps (p : probe) : bool := match p with PS _ _ => true | PW _ => false end.
+
+Fixpoint run_rts (n : nat) (wks : bool) (blocked : target -> bool) (ip_of : bytes -> bytes)
+         (wk_lines : list bytes) (name : bytes)
          (wk : bytes -> option bytes) (srv : bytes -> bytes -> srv_outcome)
          (cache : option (list target)) (k : N) : list bytes :=
   match n with
@@ -236,38 +266,74 @@ Fixpoint run_rts (n : nat) (wks : bool) (dead : list bytes) (name : bytes)
   | S n' =>
       let cache_hit := match cache with Some (_ :: _) => true | _ => false end in
       let looked := wks && negb cache_hit in
-      let ps := if looked then map show_probe (probes wk srv name) else [] in
-      match round_trip wks dead name (resolve wk srv name) cache k with
-      | None => ps ++ [bs "RT err"] ++ run_rts n' wks dead name wk srv cache k
+      let ps := if looked
+                then (match shape_of name with ShPlain => wk_lines | _ => [] end)
+                     ++ map show_probe (filter is_ps (probes wk srv name))
+                else [] in
+      match round_trip wks blocked name (resolve wk srv name) cache k with
+      | None => ps ++ [bs "RT err"] ++ run_rts n' wks blocked ip_of wk_lines name wk srv cache k
       | Some r =>
-          ps ++ flat_map show_attempt (rt_attempts r)
+          ps ++ flat_map (show_attempt ip_of) (rt_attempts r)
              ++ [if rt_ok r then bs "RT ok" else bs "RT err"]
-             ++ run_rts n' wks dead name wk srv (rt_cache r) (rt_k r)
+             ++ run_rts n' wks blocked ip_of wk_lines name wk srv (rt_cache r) (rt_k r)
       end
   end.
 
-Definition rt_env (spec_side : bool) (wkmode status cl cc ex bm body now : bytes) (tbl : list bytes)
-  : (bytes -> option bytes) * (bytes -> bytes -> srv_outcome) :=
-  let rep := reply_of status cl cc ex bm body in
-  (fun _ : bytes =>
-     if bytes_eqb wkmode (bs "reply") then
-       if spec_side then option_map fst (honouredb (z_of now) rep)
-       else match lookup (z_of now) rep with WkOk a _ => Some a | WkErr => None end
-     else None,
-   srv_lookup (srv_table (length tbl) tbl)).
+Record rt_case := {
+  rc_name : bytes; rc_wks : bool; rc_k : N; rc_nrt : nat; rc_dead : list bytes;
+  rc_allow : list bytes; rc_deny : list bytes; rc_hosts : list (bytes * bytes);
+  rc_wkmode : bytes; rc_reply : wk_reply; rc_now : Z; rc_tbl : list bytes
+}.
 
-Definition run_round_trip (args : list bytes) : bytes :=
+Definition parse_rt_case (args : list bytes) : option rt_case :=
   match args with
-  | name :: wksrv :: k :: nrt :: dead :: wkmode :: status :: cl :: cc :: ex :: bm :: body :: now :: tbl =>
-      let '(wk, srv) := rt_env false wkmode status cl cc ex bm body now tbl in
-      join_bytes nl (run_rts (N.to_nat (n_of nrt)) (bytes_eqb wksrv (bs "1")) (split_all 44 dead [])
-                             name wk srv None (n_of k))
-  | _ => bs "badargs"
+  | name :: wksrv :: k :: nrt :: dead :: r0 =>
+      let '(allow, r1) := counted r0 in
+      let '(deny, r2) := counted r1 in
+      match r2 with
+      | nh :: r3 =>
+          let '(hs, r4) := take_counted (2 * N.to_nat (n_of nh)) r3 in
+          match r4 with
+          | wkmode :: status :: cl :: cc :: ex :: bm :: body :: now :: tbl =>
+              Some {| rc_name := name; rc_wks := bytes_eqb wksrv (bs "1"); rc_k := n_of k;
+                      rc_nrt := N.to_nat (n_of nrt); rc_dead := split_all 44 dead [];
+                      rc_allow := allow; rc_deny := deny; rc_hosts := pairs_of hs;
+                      rc_wkmode := wkmode; rc_reply := reply_of status cl cc ex bm body;
+                      rc_now := z_of now; rc_tbl := tbl |}
+          | _ => None
+          end
+      | [] => None
+      end
+  | _ => None
   end.
 
-(* specification oracle: every attempt the listeners saw, in whichever round trip and pass,
-   must carry the port, SNI and Host of a target that the specification's table gives for the
-   ORIGINAL server name; a round trip may report success only after an attempt that got through *)
+Definition run_round_trip (args : list bytes) : bytes :=
+  match parse_rt_case args with
+  | None => bs "badargs"
+  | Some c =>
+      let ip_of := ip_lookup (rc_hosts c) in
+      let srv := srv_lookup (srv_table (length (rc_tbl c)) (rc_tbl c)) in
+      let replying := bytes_eqb (rc_wkmode c) (bs "reply") in
+      let conn := well_known_connection (rc_allow c) (rc_deny c) ip_of (rc_name c) in
+      let wk_lines := match conn with
+                      | Some a => (bs "C " ++ a) :: (if replying then [bs "P W " ++ rc_name c] else [])
+                      | None => []
+                      end in
+      let wk := fun _ : bytes =>
+        match conn with
+        | Some _ => if replying then match lookup (rc_now c) (rc_reply c) with WkOk a _ => Some a | WkErr => None end
+                    else None
+        | None => None
+        end in
+      join_bytes nl (run_rts (rc_nrt c) (rc_wks c)
+                             (blocked_by (rc_dead c) (rc_allow c) (rc_deny c) ip_of) ip_of
+                             wk_lines (rc_name c) wk srv None (rc_k c))
+  end.
+
+(* specification oracle: every connection the listeners accepted - for the .well-known request
+   as for the attempts, on every pass of every round trip - must be one the allow / deny lists
+   permit (may_connect); every attempt must carry the port, SNI and Host of a target that the
+   specification's table gives for the ORIGINAL server name; success needs a completed attempt *)
 Definition spec_targets (wks : bool) (name : bytes) (wk : bytes -> option bytes)
            (srv : bytes -> bytes -> srv_outcome) : list target :=
   if wks then match spec_fn wk srv name with Targets l => l | _ => [] end
@@ -285,28 +351,39 @@ Definition attempt_allowed (allowed : list target) (line : bytes) : bool :=
   | _ => false
   end.
 
-Fixpoint check_lines (allowed : list target) (lines : list bytes) (got_through : bool) : bytes :=
+Fixpoint check_lines (allow deny : list bytes) (allowed : list target) (lines : list bytes)
+         (got_through : bool) : bytes :=
   match lines with
   | [] => bs "ok"
   | l :: r =>
-      if is_prefix (bs "A ") l then
+      if is_prefix (bs "C ") l then
+        if may_connectb allow deny (net_of (drop 2 l)) (drop 2 l)
+        then check_lines allow deny allowed r got_through
+        else bs "FAIL connection to an address the lists forbid: " ++ l
+      else if is_prefix (bs "A ") l then
         if attempt_allowed allowed l
-        then check_lines allowed r (got_through || (4 <=? N.of_nat (length (split_all 32 l []))))
+        then check_lines allow deny allowed r (got_through || (4 <=? N.of_nat (length (split_all 32 l []))))
         else bs "FAIL attempt not prescribed for the server name: " ++ l
       else if bytes_eqb l (bs "RT ok") then
-        if got_through then check_lines allowed r false else bs "FAIL success without a completed attempt"
-      else if bytes_eqb l (bs "RT err") then check_lines allowed r false
-      else check_lines allowed r got_through
+        if got_through then check_lines allow deny allowed r false else bs "FAIL success without a completed attempt"
+      else if bytes_eqb l (bs "RT err") then check_lines allow deny allowed r false
+      else check_lines allow deny allowed r got_through
   end.
 
 Definition prop_round_trip (args : list bytes) : bytes :=
-  match args with
-  | name :: wksrv :: k :: nrt :: dead :: wkmode :: status :: cl :: cc :: ex :: bm :: body :: now :: rest =>
-      let tbl := removelast rest in
-      let obs := last rest [] in
-      let '(wk, srv) := rt_env true wkmode status cl cc ex bm body now tbl in
-      check_lines (spec_targets (bytes_eqb wksrv (bs "1")) name wk srv) (split_all 10 obs []) false
-  | _ => bs "badargs"
+  match parse_rt_case (removelast args) with
+  | None => bs "badargs"
+  | Some c =>
+      let obs := last args [] in
+      let ip_of := ip_lookup (rc_hosts c) in
+      let srv := srv_lookup (srv_table (length (rc_tbl c)) (rc_tbl c)) in
+      let wk_addr := dest_addr ip_of (well_known_dest (rc_name c)) in
+      let wk := fun _ : bytes =>
+        if may_connectb (rc_allow c) (rc_deny c) (net_of wk_addr) wk_addr
+           && bytes_eqb (rc_wkmode c) (bs "reply")
+        then option_map fst (honouredb (rc_now c) (rc_reply c)) else None in
+      check_lines (rc_allow c) (rc_deny c) (spec_targets (rc_wks c) (rc_name c) wk srv)
+                  (split_all 10 obs []) false
   end.
 
 (* end-to-end dial: [mode; target; network; address handed to the dialer; nallow; allow...; deny...];
